@@ -226,6 +226,35 @@ func GenCase(t *rapid.T, o GenOpts) *Case {
 			}
 		}
 	}
+	nackRunWindow := false
+	// runs of consecutive rejections (they reach the DLQ in one call in arch-v2), optionally with a
+	// DLQ failure inside the run
+	if o.Nacks && chance(t, "nackrun", 50) {
+		di := Uniform(t, "nackrundest", ndst)
+		si := Uniform(t, "nackrunsrc", nsrc)
+		if ns[si] >= 2 {
+			start := Uniform(t, "nackrunstart", ns[si]-1)
+			length := 2 + Uniform(t, "nackrunlen", 3)
+			if start+length > ns[si] {
+				length = ns[si] - start
+			}
+			for q := start; q < start+length; q++ {
+				c.Dests[di].PerPiece[Key(si, q, 0)] = OutNack
+			}
+			if chance(t, "nackrunbatch", 50) {
+				c.Sources[si].Batches = []int{5}
+			}
+			nackRunWindow = chance(t, "nackrunwindow", 70)
+			if o.DLQFaults && length >= 2 && chance(t, "nackrundlq", 70) {
+				if c.DLQ.PerRecord == nil {
+					c.DLQ.PerRecord = map[string]Outcome{}
+				}
+				// not the last record of the run: a later one is accepted by the DLQ
+				q := start + Uniform(t, "nackrundlqat", length-1)
+				c.DLQ.PerRecord[Key(si, q, 0)] = OutNack
+			}
+		}
+	}
 	if o.StreamErrs && chance(t, "streamerr", 30) {
 		di := rapid.IntRange(0, ndst-1).Draw(t, "errdest")
 		for _, k := range sparseKeys(t, "errkeys", nsrc, ns, 1) {
@@ -234,8 +263,10 @@ func GenCase(t *rapid.T, o GenOpts) *Case {
 	}
 
 	// DLQ
-	c.DLQ.PerRecord = map[string]Outcome{}
-	if o.UnlimitedDLQ {
+	if c.DLQ.PerRecord == nil {
+		c.DLQ.PerRecord = map[string]Outcome{}
+	}
+	if o.UnlimitedDLQ || nackRunWindow {
 		c.DLQ.WindowSize, c.DLQ.Threshold = 0, 0
 	} else {
 		// valid configurations only (pipeline.Service.UpdateDLQ): size 0, or threshold < size
